@@ -10,7 +10,7 @@ Case lines (shared with harness/c10):
   adv <dt>
   sweep
 op syntax (comma separated): co,<fn>,<delay>,<tag> | cofp,<fn>,<delay>,<tag> | rmh,<tag> | rmn,<fn> | fh,<tag> | fn,<fn> | rmall |
-  dest,o<k> | err | info
+  dest,o<k> | err | info | reload | usage
 -/
 import NV.Common.Proto
 import NV.C10.Model
@@ -34,6 +34,8 @@ def parseOp (s : String) : Option Op :=
   | ["rmall"] => some .rmall
   | ["dest", o] => do some (.dest (← parseOid o))
   | ["err"] => some .err
+  | ["reload"] => some .reload
+  | ["usage"] => some .usage
   | ["info"] => some .info
   | _ => none
 
@@ -103,6 +105,8 @@ def render : Ev → String
   | .fnm t o f r => s!"{t} r fn o{o} {f} {r}"
   | .rmall t o => s!"{t} r rmall o{o}"
   | .dest t o x => s!"{t} r dest o{o} o{x}"
+  | .reload t o => s!"{t} r reload o{o}"
+  | .usage t n l => s!"{t} r usage {n} {l}"
   | .info t rows => s!"{t} r info{String.join (rows.map fun r => " " ++ renderRow r)}"
   | .err o => s!"err *boom o{o}"
   | .errFpDead => "err *fp-owner-destructed"
@@ -139,6 +143,8 @@ def parseEv (line : String) : Ev :=
   | [t, "r", "rmn", o, f, r] => orBad do some (.rmn (← t.toInt?) (← parseOid o) (← f.toNat?) (← r.toInt?))
   | [t, "r", "fn", o, f, r] => orBad do some (.fnm (← t.toInt?) (← parseOid o) (← f.toNat?) (← r.toInt?))
   | [t, "r", "rmall", o] => orBad do some (.rmall (← t.toInt?) (← parseOid o))
+  | [t, "r", "reload", o] => orBad do some (.reload (← t.toInt?) (← parseOid o))
+  | [t, "r", "usage", n, l] => orBad do some (.usage (← t.toInt?) (← n.toNat?) (← l.toNat?))
   | [t, "r", "dest", o, x] => orBad do some (.dest (← t.toInt?) (← parseOid o) (← parseOid x))
   | t :: "r" :: "info" :: rows =>
     let rs := rows.map parseRow
